@@ -198,6 +198,32 @@ def run(ctx):
                   "annotation it was gathered from change the stored definition" % ", ".join(origin_text(o) for o in bad),
                   desc="entry stores a fresh copy of its contents")
 
+    # ---------------- R9.5: a copy of a tag does not share its cached expansion / flag with the original
+    ctx.rule("R9.5", "HedTag.__deepcopy__ deep-copies the cached expansion, its flag and the parent link")
+    dc = tag.methods.get("__deepcopy__")
+    if dc is not None:
+        ctx.saw(dc)
+        shallow = any(isinstance(c, ast.Call) and call_name(c) == "update" and "__dict__" in norm(c) for c in walk_no_nested(dc.node))
+        if shallow:
+            copied = set()
+            for n in walk_no_nested(dc.node):
+                if isinstance(n, ast.Assign) and isinstance(n.targets[0], ast.Attribute) and isinstance(n.value, ast.Call) \
+                        and call_name(n.value) in ("deepcopy", "copy"):
+                    copied.add(n.targets[0].attr)
+            # frozen instance table: attributes of a tag that hold (or gate) tree objects
+            NEED = {"_parent": "the parent group (a copy must not point into the original tree)",
+                    "_expandable": "the cached expansion group, which contains this very tag",
+                    "_expanded": "the typestate flag paired with the cached expansion (R9.1)"}
+            for attr, why in NEED.items():
+                ctx.check(attr in copied, "R9.5", dc.qualname, "deep copy of " + attr, loc(dc, dc.node),
+                          "HedTag.__deepcopy__ copies __dict__ shallowly and does not deep-copy %s — %s: a copy made after "
+                          "the expansion was computed shares it with the original, so expanding/shrinking the copy rewrites "
+                          "the original" % (attr, why), desc="__deepcopy__ deep-copies %s" % attr)
+        else:
+            ctx.ok("R9.5", "HedTag.__deepcopy__ does not start from a shallow __dict__ copy", loc(dc, dc.node))
+    else:
+        ctx.ok("R9.5", "HedTag has no custom __deepcopy__ (default deep copy copies every attribute)", loc(tag.module, tag.node))
+
     # ---------------- R9.4
     n = wiring.check_wiring(ctx, "R9.4", ROWS, cfd)
     ctx.floor("R9.4", "acceptance keys", n, 9)
